@@ -547,7 +547,7 @@ def construct_cases(draw, tier="quick"):
 FINDINGS = []
 
 SUBS = [
-    Sub("history", lambda tier: histories(tier), check_history, quick=900, thorough=6000),
+    Sub("history", lambda tier: histories(tier), check_history, quick=1400, thorough=6000),
     Sub("construct", lambda tier: construct_cases(tier), check_construct, quick=400, thorough=2500),
 ]
 
